@@ -510,6 +510,7 @@ func (e *Exec) idx64(fr *Frame, v ssa.Value) *Term {
 type pathLimit struct{}
 
 var forkStats map[string]int
+var forkTotal int
 
 var pruneAfter = 3000 // forks per function before the incremental solver is consulted at branches
 
@@ -593,6 +594,21 @@ func (e *Exec) runBlock(st *State, fr *Frame, b *ssa.BasicBlock, prev *ssa.Basic
 					fmt.Fprintf(os.Stderr, "FIRSTFORK %s %s\n   %s\n", k, fr.fn.Prog.Fset.Position(x.Cond.Pos()), showTerm(c, 7))
 				}
 				forkStats[fnName(fr.fn)+relPos(fr.fn, x.Pos())+" "+fr.fn.Prog.Fset.Position(x.Cond.Pos()).String()]++
+				forkTotal++
+				if forkTotal%5000 == 0 {
+					type kv struct {
+						k string
+						v int
+					}
+					var all []kv
+					for k, v := range forkStats {
+						all = append(all, kv{k, v})
+					}
+					sort.Slice(all, func(i, j int) bool { return all[i].v > all[j].v })
+					for i := 0; i < 6 && i < len(all); i++ {
+						fmt.Fprintf(os.Stderr, "FORKS %d %s\n", all[i].v, all[i].k)
+					}
+				}
 			}
 			if e.paths > e.maxPaths {
 				panic(unsupported(fmt.Sprintf("path limit %d exceeded in %s", e.maxPaths, e.curFn)))
